@@ -163,6 +163,28 @@ def main(inp, outp):
                 res["evaluations"] += 1
                 clause("adaptive methods stay within a small multiple of their tolerance per step", err <= 20 * tol * nsteps + 1e-3, f"rk/tolerance[{method}]",
                        f"{method} tol {tol}: error {err:.4g} m after {nsteps:.0f} steps", data)
+        # adaptive methods, tight tolerances, judged on the raw integration nodes: every accepted step (also the ones that follow
+        # a rejected trial) adds at most a small multiple of the tolerance to the error against the analytical solution
+        kep_e = [kep[0], max(kep[1], 0.15)] + kep[2:]
+        for method in ("rkf54", "dopri54"):
+            for tol in (1e-5, 1e-6):
+                prop = KeplerNum(timedelta(seconds=150), earth, method=method, tol=tol)
+                o = Orbit(kep_e, DATE, "keplerian", "EME2000", prop).copy(form="cartesian")
+                prop.orbit = o
+                anal = Orbit(kep_e, DATE, "keplerian", "EME2000", "Kepler")
+                y, prev_err, worst, rejected = prop.orbit, 0.0, 0.0, 0
+                for _k in range(25):
+                    real_step, y = prop._make_step(y, prop.step)
+                    if real_step < prop.step:
+                        rejected += 1
+                    refn = np.asarray(anal.propagate(y.date).copy(form="cartesian"), float)
+                    err = float(np.linalg.norm(np.asarray(y, float)[:3] - refn[:3]))
+                    worst = max(worst, err - prev_err)
+                    prev_err = err
+                res["evaluations"] += 1
+                clause("adaptive methods: each accepted step adds at most 10 x tolerance to the error at the integration nodes (tolerances 1e-5, 1e-6 m)",
+                       worst <= 10 * tol + 2e-7, f"rk/node-tolerance[{method}]",
+                       f"{method} tol {tol}: one step added {worst:.3g} m ({rejected} of 25 steps followed a rejected trial)", dict(data, kep=kep_e))
         # invariants: energy and angular momentum drift of RK4
         got = run("rk4", 30, case["t"])
         mu = earth.mu
